@@ -1,21 +1,25 @@
-import JunoModel.C11.Proofs
+import JunoModel.C11.ProofsSpec
 import JunoModel.C11.ProofsPretty
 /-!
-C11 — property theorems (statements only; the proofs are in `Proofs.lean`, the vocabulary in
-`ModelSpec.lean`, the model of `jsonrpc/server.go` in `Model.lean`).
+C11 — property theorems (statements only; proofs in `Proofs*.lean`, vocabulary in `ModelSpec.lean`,
+model of the code in `Model*.lean`).
 
-All theorems quantify over every configuration `cfg`, every environment `env` (parameter types,
-validator, handlers), every method table `tbl` and every input `inp` (= any byte string, seen
-through Go's parse of its first JSON value; batches of any length, JSON of any depth).
-The real server answers a batch in the order its worker pool finishes; the model answers in
-request order, and the theorems that pair requests with responses are stated for every
-permutation of the response list.
+The property is stated against an INDEPENDENT reading of JSON-RPC 2.0 (`specKind`, `specBind`,
+`MeetsSpec` in ModelSpec.lean — defined from the JSON text, without `decodeRequest`, `isSane`,
+`buildArguments` or `handleRequest`): a notification is a Request object WITHOUT an `id` member;
+a value that parses but is not a Request object is answered -32600; a response id is a String, a
+Number or Null. Where the server as it is (`junoCfg`, `handleInputF`) deviates, the theorem is
+`_partial` (the deviation is an explicit hypothesis) and a proved counterexample stands next to it:
 
-`junoCfg` is the server in the current tree. Two defects found at the pinned commit (`pinnedCfg`) have
-been repaired in /repo (6b06fc7 nil results, 16a67e4 notifications answered with errors): the
-full-strength theorems now hold for `junoCfg`, and the proved counterexamples are kept on
-`pinnedCfg` as regression witnesses. One defect remains (a batch after 128 or more blanks): it has the
-full theorem for the repaired switch, a `_partial` theorem for `junoCfg` and a proved counterexample.
+  * `"id": null` is treated as a notification                      → `request_with_null_id_not_answered`
+  * a single valid-JSON non-request is answered -32700             → `single_invalid_request_answered_with_parse_error`
+  * an Invalid Request answer echoes an array / object / bool id   → `invalid_request_echoes_structured_id`
+  * a handler that panics or returns an unmarshallable value costs
+    the response                                                   → `handler_failure_loses_response`
+  * a batch after 128 or more blanks is not recognised             → `batch_after_128_blanks_not_recognised`
+
+`*_before_<commit>` theorems are regression witnesses for defects already repaired in /repo.
+Statements that are true by construction of the model are in ProofsMisc.lean, not here.
 -/
 namespace Juno.C11.Props
 open Juno.C11
@@ -28,24 +32,18 @@ def oneMethod : Table := [{ name := "m", params := [] }]
 def request (method : String) (rest : List (String × Json)) : Json :=
   .obj ([("jsonrpc", .str "2.0"), ("method", .str method)] ++ rest)
 def singleInput (j : Json) : Input := { leadWs := 0, firstIsBracket := false, parsed := some j }
+def batchInput (es : List Json) : Input := { leadWs := 0, firstIsBracket := true, parsed := some (.arr es) }
 /-- every handler echoes its arguments -/
 def echoEnv : Env :=
   { decode := fun _ v => some v, zero := fun _ => .null, call := fun _ args => { result := some (.arr args) } }
 
-/-- FULL, for the server as it is: for every input, table, parameter typing and handler behaviour the
-output is nothing, or one JSON-RPC 2.0 response object (`jsonrpc:"2.0"`, exactly one of result /
-error, an id) for a single request or a refused input, or a non-empty array of such objects for a
-batch. -/
+/-- FULL, for the server as it is and for ARBITRARY handlers (also panicking ones and ones returning
+unmarshallable values): the output is nothing, or one JSON-RPC 2.0 response object (`jsonrpc:"2.0"`,
+exactly one of result / error, an id) for a single request or a refused input, or a non-empty array
+of such objects for a batch. -/
 theorem wellformed_response (env : Env) (tbl : Table) (inp : Input) :
-    WellFormedBody (inp.batch? junoCfg).isSome (handleInput junoCfg env tbl inp).body :=
-  wellformed junoCfg env tbl inp (Or.inl rfl)
-
-/-- The same for every configuration that writes nil results as null, and for every configuration
-at all when no handler returns an untyped nil result together with a nil error. -/
-theorem wellformed_response_any_config (cfg : Config) (env : Env) (tbl : Table) (inp : Input)
-    (h : cfg.nullForNilResult = true ∨ NoNilResult env) :
-    WellFormedBody (inp.batch? cfg).isSome (handleInput cfg env tbl inp).body :=
-  wellformed cfg env tbl inp h
+    WellFormedBody (inp.batch? junoCfg).isSome (handleInputF junoCfg env tbl inp).body :=
+  wellformedF junoCfg env tbl inp rfl
 
 /-- REGRESSION WITNESS (pinned commit, repaired by 6b06fc7): `{"jsonrpc":"2.0","method":"m","id":1}`
 with a handler returning `(nil, nil)` was answered with `{"jsonrpc":"2.0","id":1}` — neither result
@@ -65,25 +63,103 @@ theorem nil_result_defect_before_6b06fc7 :
   have := isResponse_members hr
   simp at this
 
-/-! ## 2. No output iff every request is a notification -/
+/-- FULL (repaired `legalIdEchoOnly`): every response, to any JSON value whatsoever, carries a String, a
+Number or Null as id. -/
+theorem response_id_is_legal (cfg : Config) (hfix : cfg.legalIdEchoOnly = true) (env : Env) (tbl : Table)
+    (c : Int) (j : Json) (r : Response) (h : (handleEntry cfg env tbl c j).1 = some r) : LegalId r.id := by
+  rw [handleEntry_eq] at h
+  rw [entrySpec_id cfg env c _ r h]
+  exact stage_id_legal_repaired cfg hfix env tbl j
 
-/-- FULL, for the server as it is: no output iff the input is not refused as a whole and every
-request value in it is a notification (a sane Request without id). In particular never for
-unparsable input, an empty batch or disabled batches. -/
-theorem silent_iff_all_notifications (env : Env) (tbl : Table) (inp : Input) :
-    (handleInput junoCfg env tbl inp).body = none ↔
-      ∃ es, inp.entries junoCfg = some es ∧ ∀ e ∈ es, (stageOf env tbl e).isNotification = true := by
-  rw [silent_iff junoCfg env tbl inp]
-  have : ∀ s : Stage, s.noReply junoCfg = s.isNotification := by
-    intro s; cases s <;> simp [Stage.noReply, Stage.isNotification, junoCfg]
-  simp only [this]
+/-- PARTIAL (server as it is): … provided the request's own `id` member, if any, is a String, a Number or
+Null. What is missing: see `invalid_request_echoes_structured_id`. -/
+theorem response_id_is_legal_partial (env : Env) (tbl : Table) (c : Int) (kvs : List (String × Json))
+    (hp : PlainMembers kvs) (hid : IdScalarOrAbsent kvs) (r : Response)
+    (h : (handleEntry junoCfg env tbl c (.obj kvs)).1 = some r) : LegalId r.id :=
+  response_id_legal_plain env tbl c kvs hp hid r h
 
-/-- For every configuration: the server is silent iff the input consists of request values it
-passes over in silence (`Stage.noReply`). -/
-theorem silent_iff_no_reply_expected (cfg : Config) (env : Env) (tbl : Table) (inp : Input) :
-    (handleInput cfg env tbl inp).body = none ↔
-      ∃ es, inp.entries cfg = some es ∧ ∀ e ∈ es, (stageOf env tbl e).noReply cfg = true :=
-  silent_iff cfg env tbl inp
+/-- DEFECT (server as it is): `{"jsonrpc":"1.0","id":[1]}` is answered with `"id":[1]` — not a legal
+response id; with `legalIdEchoOnly` the answer carries Null. -/
+theorem invalid_request_echoes_structured_id :
+    (handleInput junoCfg nilEnv oneMethod
+        (singleInput (.obj [("jsonrpc", .str "1.0"), ("id", .arr [.num "1"])]))).body
+      = some (.obj [("jsonrpc", .str "2.0"),
+                    ("error", .obj [("code", .num "-32600"), ("message", .str "Invalid Request"),
+                                    ("data", .str "unsupported RPC request version")]),
+                    ("id", .arr [.num "1"])])
+    ∧ ¬ LegalId (.arr [.num "1"])
+    ∧ (handleEntry { junoCfg with legalIdEchoOnly := true } nilEnv oneMethod (-32700)
+        (.obj [("jsonrpc", .str "1.0"), ("id", .arr [.num "1"])])).1.map (·.id) = some .null := by
+  exact ⟨by rfl, by simp [LegalId], by rfl⟩
+
+/-! ## 2. Every request value is answered as JSON-RPC 2.0 says -/
+
+/-- PARTIAL (server as it is), per request value, against the independent specification `MeetsSpec`:
+a value that is not a Request object is answered -32600 with id Null or its own id, and runs nothing;
+a notification (no `id` member) is never answered and runs its handler once iff its method exists
+and its parameters are bindable (`specBind`); a request is answered exactly once, with its own id:
+-32601 for an unknown method, -32602 iff the parameters are not bindable, else what the handler
+returned for exactly the argument vector the caller supplied (`specBind`), the handler having run
+once. Excluded (`hnotnull`, `hdec`): `"id": null`, and — for a single request (`c = -32700`) — values that
+`Decode(*Request)` rejects; both are deviations with counterexamples below. `hplain`/`hdefinite`
+restrict to plainly written objects on which the text of the specification is definite. -/
+theorem request_meets_spec_partial (env : Env) (tbl : Table) (c : Int) (j : Json) (htbl : TableOk tbl)
+    (hplain : PlainEntry j)
+    (hdefinite : ∀ kvs, j = .obj kvs → SpecDefinite kvs ∧ IdScalarOrAbsent kvs)
+    (hnotnull : ∀ kvs, j = .obj kvs → member kvs "id" ≠ some .null)
+    (hdec : c = -32600 ∨ decodeRequest j ≠ none) :
+    MeetsSpec junoCfg env tbl j (handleEntry junoCfg env tbl c j) :=
+  entry_meets_spec env tbl c j htbl hplain hdefinite hnotnull hdec
+
+/-- PARTIAL, for whole inputs (single request or batch of any length) and handlers that neither panic nor
+return unmarshallable values: every request value meets the specification (`MeetsSpec`), the body is
+exactly the responses of the request values, in request order, put on the wire (`assemble`: nothing /
+the object / the array), the invocation log is exactly the calls the specification demands, in order,
+and `HandleReader` neither fails nor panics. (The real server answers a batch in the order its workers
+finish: the harness compares multisets.) -/
+theorem input_meets_spec_partial (env : Env) (tbl : Table) (inp : Input) (es : List Json)
+    (hes : inp.entries junoCfg = some es) (htbl : TableOk tbl) (hok : HandlersOk env)
+    (hj : ∀ e ∈ es, Judged (!(inp.batch? junoCfg).isSome) e) :
+    (∀ e ∈ es, MeetsSpec junoCfg env tbl e (handleEntry junoCfg env tbl (inp.decodeFailCode junoCfg) e)) ∧
+    (handleInputF junoCfg env tbl inp).body =
+      assemble (inp.batch? junoCfg).isSome
+        ((es.filterMap (fun e => (handleEntry junoCfg env tbl (inp.decodeFailCode junoCfg) e).1)).map Response.toJson) ∧
+    (handleInputF junoCfg env tbl inp).log =
+      es.flatMap (fun e => (handleEntry junoCfg env tbl (inp.decodeFailCode junoCfg) e).2) ∧
+    (handleInputF junoCfg env tbl inp).goError = false ∧ (handleInputF junoCfg env tbl inp).panicked = false :=
+  input_meets_spec env tbl inp es hes htbl hok hj
+
+/-- PARTIAL: no output ⇔ the input is not refused as a whole and every request value in it is a
+notification in the sense of the specification (a Request object without `id` member) — for inputs
+whose request values are `Judged` (in particular none has `"id": null`) and well-behaved handlers. -/
+theorem silent_iff_all_notifications_partial (env : Env) (tbl : Table) (inp : Input) (htbl : TableOk tbl)
+    (hok : HandlersOk env)
+    (hj : ∀ es, inp.entries junoCfg = some es → ∀ e ∈ es, Judged (!(inp.batch? junoCfg).isSome) e) :
+    (handleInputF junoCfg env tbl inp).body = none ↔
+      ∃ es, inp.entries junoCfg = some es ∧ ∀ e ∈ es, (specKind e).isNotification = true :=
+  silent_iff_spec env tbl inp htbl hok hj
+
+/-- DEFECT (server as it is): `{"jsonrpc":"2.0","method":"m","id":null}` is a request by the
+specification (`specKind` = request with id Null, to be answered with id null); the server runs the
+handler and answers nothing. -/
+theorem request_with_null_id_not_answered :
+    (specKind (request "m" [("id", .null)])).isNotification = false
+    ∧ (handleInputF junoCfg echoEnv oneMethod (singleInput (request "m" [("id", .null)]))).body = none
+    ∧ (handleInputF junoCfg echoEnv oneMethod (singleInput (request "m" [("id", .null)]))).log = [("m", [])] := by
+  exact ⟨by rfl, by rfl, by rfl⟩
+
+/-- DEFECT (server as it is; pinned by juno's own tests): the valid JSON text `42` sent as a single request
+is answered "-32700 Parse error"; the specification (and the same server for the same value inside a
+batch) says -32600 Invalid Request. Likewise `{"jsonrpc":2,"method":"m","id":1}`. -/
+theorem single_invalid_request_answered_with_parse_error :
+    IsErrorResponse (-32700) .null
+      ((handleInputF junoCfg echoEnv oneMethod (singleInput (.num "42"))).body.getD .null)
+    ∧ IsErrorResponse (-32700) .null
+      ((handleInputF junoCfg echoEnv oneMethod
+          (singleInput (.obj [("jsonrpc", .num "2"), ("method", .str "m"), ("id", .num "1")]))).body.getD .null)
+    ∧ (handleInputF junoCfg echoEnv oneMethod (batchInput [.num "42"])).body
+        = some (.arr [(errResponse (-32600) (some opaqueData)).toJson]) := by
+  exact ⟨⟨"Parse error", some opaqueData, by rfl⟩, ⟨"Parse error", some opaqueData, by rfl⟩, by rfl⟩
 
 /-- REGRESSION WITNESS (pinned commit, repaired by 16a67e4): the notification
 `{"jsonrpc":"2.0","method":"nope"}` was answered with a -32601 error object; the current server is
@@ -95,39 +171,7 @@ theorem notification_defect_before_16a67e4 :
     ∧ (handleInput junoCfg nilEnv oneMethod (singleInput (request "nope" []))).body = none := by
   refine ⟨by rfl, ⟨"Method Not Found", none, by rfl⟩, by rfl⟩
 
-/-! ## 3. One response per request, carrying its id, with the code of the first failing stage -/
-
-/-- For every input that is not refused as a whole: the output is the list of response objects put
-on the wire (`assemble`: nothing / the object / the array), and the response objects correspond
-one-to-one, in order, to the request values that are not passed over in silence; each carries the
-id of its request, the error code of the first failing stage, or the handler's outcome.
-Stated for EVERY permutation `rs'` of the response list (the worker pool may finish in any order):
-there is a matching permutation of the requests. `ResultsOk` (nil results written as null, or no
-handler returning `(nil, nil)`) is needed only for the "exactly one of result/error" part; it holds
-for `junoCfg`, see `one_response_per_request`. -/
-theorem one_response_per_request_any_config (cfg : Config) (env : Env) (tbl : Table) (inp : Input)
-    (es : List Json) (hes : inp.entries cfg = some es) (hok : ResultsOk cfg env) :
-    ∃ rs, (handleInput cfg env tbl inp).body = assemble (inp.batch? cfg).isSome rs ∧
-      ∀ rs', rs.Perm rs' →
-        ∃ es', (es.filter (fun e => !(stageOf env tbl e).noReply cfg)).Perm es' ∧
-          Forall₂ (AnswersRequest cfg env tbl (inp.decodeFailCode cfg)) es' rs' := by
-  refine ⟨_, output_assemble cfg env tbl inp es hes, ?_⟩
-  intro rs' hp
-  have hf := forall₂_imp (fun a b h => answersRequest_of_answers (decodeFailCode_cases cfg inp) hok h)
-    (responses_forall₂ cfg env tbl inp es hes)
-  exact forall₂_perm_right hf hp
-
-/-- FULL, for the server as it is: `one_response_per_request_any_config` without side condition. -/
-theorem one_response_per_request (env : Env) (tbl : Table) (inp : Input)
-    (es : List Json) (hes : inp.entries junoCfg = some es) :
-    ∃ rs, (handleInput junoCfg env tbl inp).body = assemble (inp.batch? junoCfg).isSome rs ∧
-      ∀ rs', rs.Perm rs' →
-        ∃ es', (es.filter (fun e => !(stageOf env tbl e).isNotification)).Perm es' ∧
-          Forall₂ (AnswersRequest junoCfg env tbl (inp.decodeFailCode junoCfg)) es' rs' := by
-  have h := one_response_per_request_any_config junoCfg env tbl inp es hes (Or.inl rfl)
-  have hn : ∀ s : Stage, s.noReply junoCfg = s.isNotification := by
-    intro s; cases s <;> simp [Stage.noReply, Stage.isNotification, junoCfg]
-  simpa only [hn] using h
+/-! ## 3. Inputs refused as a whole -/
 
 /-- `error_codes`: an input that is refused as a whole (no parsable JSON value; an empty batch;
 batches disabled) gets exactly one error object with id null and code -32700 resp. -32600, and no
@@ -148,28 +192,28 @@ theorem error_codes_unparsable (cfg : Config) (env : Env) (tbl : Table) (inp : I
   · simp [handleInput, hb, hp]
   · cases hB : isBatch cfg inp <;> simp [handleInput, hB, hb, hp]
 
-/-! ## 4. Each valid request invokes its handler exactly once with the supplied arguments -/
+/-! ## 4. Binding: the arguments the caller supplied, identically by position and by name -/
 
-/-- The invocation log is exactly: one call `(method, args)` per request value that passes every
-stage (decode, isSane, lookup, binding), in request order, nothing for any other request value —
-notifications included, refused inputs excluded. The real server's log is a permutation of it. -/
-theorem invoked_once_same_args (cfg : Config) (env : Env) (tbl : Table) (inp : Input) :
-    (handleInput cfg env tbl inp).log =
-      match inp.entries cfg with
-      | none => []
-      | some es => es.filterMap (fun e => (stageOf env tbl e).call?) := by
-  cases he : inp.entries cfg with
-  | none =>
-    obtain ⟨_, _, _, hout, _⟩ := handleInput_refused cfg env tbl inp he
-    rw [hout]
-  | some es => exact log_eq cfg env tbl inp es he
+/-- **Bindability.** For a method with distinct parameter names and optional parameters last, and
+parameters that are absent, an array, or an object with distinct member names: `buildArguments`
+succeeds exactly when the parameters are bindable by §4.2 as spelled out in `specBind` (by position:
+not more values than parameters, every parameter left out optional; by name, in ANY member order:
+every member names a parameter, every required parameter is named; a `null` argument is "not given"),
+and then yields exactly the supplied argument vector (absent optional parameters zero). So the code
+-32602 is answered iff the call is not bindable. -/
+theorem params_bound_iff_bindable (env : Env) (m : Method) (params : Option Json)
+    (hnd : (m.params.map (·.name)).Nodup) (htail : OptionalTail m.params)
+    (hkeys : ∀ o, params = some (.obj o) → (o.map (·.1)).Nodup)
+    (hshape : params = none ∨ (∃ xs, params = some (.arr xs)) ∨ (∃ o, params = some (.obj o))) :
+    (buildArguments env params m).toOption = specBind env m.params params :=
+  buildArguments_eq_specBind env m params hnd htail hkeys hshape
 
 /-- The arguments of a positional call: the supplied values decoded in order against the parameter
 types, followed by the zero values of the omitted (optional) parameters. -/
 theorem positional_args_as_supplied (env : Env) (ps : List Param) (vs args : List Json)
     (hlen : vs.length ≤ ps.length) (h : bindPositional env ps vs = .ok args) :
     args.length = ps.length ∧
-    Forall₂ (fun (pv : Param × Json) a => env.decode pv.1.ty pv.2 = some a) (ps.zip vs) (args.take vs.length) ∧
+    Forall₂ (fun (pv : Param × Json) a => decodeParam env pv.1 pv.2 = some a) (ps.zip vs) (args.take vs.length) ∧
     args.drop vs.length = (ps.drop vs.length).map (fun p => env.zero p.ty) :=
   bindPositional_spec env ps vs args hlen h
 
@@ -198,7 +242,37 @@ theorem decodeRequest_plain_object (kvs : List (String × Json)) (hp : PlainMemb
       | _, _ => none :=
   decodeRequest_plain kvs hp
 
-/-! ## 5. Batch recognition -/
+/-! ## 5. Handlers that fail -/
+
+/-- `m` returns something `json.Marshal` rejects, `p` panics -/
+def faultyEnv : Env :=
+  { decode := fun _ v => some v, zero := fun _ => .null,
+    call := fun n args => if n = "p" then { panics := true } else if n = "m" then { result := some .null, marshals := false }
+                          else { result := some (.arr args) } }
+def faultyTable : Table := [{ name := "m", params := [] }, { name := "p", params := [] }, { name := "ok", params := [] }]
+
+/-- DEFECT (server as it is): a request whose handler returns an unmarshallable value gets no answer —
+single: `HandleReader` fails (HTTP: 500 with an empty body, WebSocket: connection closed); in a batch
+the entry is silently missing (`[m#1, ok#2]` → only #2 answered), and a batch of such entries gives no
+output at all. A panicking handler in a batch is swallowed by the worker pool: its entry is missing,
+the caller sees no panic. With `internalErrorOnHandlerFailure` each is answered -32603. -/
+theorem handler_failure_loses_response :
+    let single : Input := singleInput (request "m" [("id", .num "1")])
+    let batch : Input :=
+      batchInput [request "m" [("id", .num "1")], request "ok" [("id", .num "2")], request "p" [("id", .num "3")]]
+    let allLost : Input := batchInput [request "m" [("id", .num "1")]]
+    (handleInputF junoCfg faultyEnv faultyTable single).body = none
+    ∧ (handleInputF junoCfg faultyEnv faultyTable single).goError = true
+    ∧ (handleInputF junoCfg faultyEnv faultyTable batch).body
+        = some (.arr [.obj [("jsonrpc", .str "2.0"), ("result", .arr []), ("id", .num "2")]])
+    ∧ (handleInputF junoCfg faultyEnv faultyTable batch).panicked = false
+    ∧ (handleInputF junoCfg faultyEnv faultyTable batch).log = [("m", []), ("ok", []), ("p", [])]
+    ∧ (handleInputF junoCfg faultyEnv faultyTable allLost).body = none
+    ∧ IsErrorResponse (-32603) (.num "1")
+        ((handleInputF { junoCfg with internalErrorOnHandlerFailure := true } faultyEnv faultyTable single).body.getD .null) := by
+  exact ⟨by rfl, by rfl, by rfl, by rfl, by rfl, by rfl, ⟨"Internal error", some opaqueData, by rfl⟩⟩
+
+/-! ## 6. Batch recognition -/
 
 /-- FULL (repaired `peekLimit = none`): every input whose first non-blank byte is `[` is handled as
 a batch. -/
@@ -236,55 +310,6 @@ theorem positional_named_differ_without_optional_tail :
     ∧ (∃ e, buildArguments echoEnv (some (.obj [("a", .num "7")])) m = .error e) := by
   exact ⟨by rfl, ⟨_, by rfl⟩⟩
 
-/-! ## 5b. Transports -/
-
-/-- HTTP: a POST is answered with status 200, `Content-Type: application/json` and exactly what
-`HandleReader` produces for the body (so every theorem above applies to it); the handlers invoked
-are those of `HandleReader`. -/
-theorem http_post_is_handleReader (cfg : Config) (env : Env) (tbl : Table) (path : Bool) (body : Input) :
-    serveHTTP cfg env tbl { method := .post, pathIsRoot := path, body := body } =
-      { status := 200, json := true, body := (handleInput cfg env tbl body).body,
-        log := (handleInput cfg env tbl body).log } := rfl
-
-/-- HTTP: no other method reaches the dispatcher: no body is written and no handler runs, whatever
-the request body is; the status is 200 (GET /), 404 (GET elsewhere) or 405. -/
-theorem http_non_post_runs_nothing (cfg : Config) (env : Env) (tbl : Table) (r : HttpRequest)
-    (h : r.method ≠ .post) :
-    (serveHTTP cfg env tbl r).body = none ∧ (serveHTTP cfg env tbl r).log = [] ∧
-    ((serveHTTP cfg env tbl r).status = 200 ∨ (serveHTTP cfg env tbl r).status = 404 ∨
-      (serveHTTP cfg env tbl r).status = 405) := by
-  cases hm : r.method with
-  | post => exact absurd hm h
-  | get => cases hp : r.pathIsRoot <;> simp [serveHTTP, hm, hp]
-  | other => simp [serveHTTP, hm]
-
-/-- WebSocket: on one connection the messages sent by the server are, in order, the responses to
-the messages that are not passed over in silence — one each, none lost, none duplicated, none
-overtaking — each response being what `HandleReader` produces for that message alone (a frame's
-bytes after its first JSON value never leak into the next message). The invocation log of the
-connection is the concatenation of the per-message logs. -/
-theorem ws_replies_in_message_order (cfg : Config) (env : Env) (tbl : Table) (msgs : List Input) :
-    Forall₂ (fun m r => (handleInput cfg env tbl m).body = some r)
-      (msgs.filter (fun m => (handleInput cfg env tbl m).body.isSome))
-      (wsWire (wsSession cfg env tbl msgs))
-    ∧ wsLog (wsSession cfg env tbl msgs) = msgs.flatMap (fun m => (handleInput cfg env tbl m).log) := by
-  refine ⟨ws_pairing cfg env tbl msgs, ?_⟩
-  simp [wsLog, wsSession, List.flatMap_map]
-
-/-- Cancellation (a request deadline expiring while batch entries are still queued for a pool slot)
-costs no response: whichever prefix of the batch was dispatched before the context expired, and
-whatever the handlers of the remaining entries answer once they see a cancelled context
-(`envLate`, any environment with the same parameter typing), the responses carry exactly the same
-ids, in the same order, as without cancellation, and exactly the same handler calls are made. -/
-theorem cancellation_drops_no_response (cfg : Config) (env envLate : Env) (tbl : Table)
-    (early late : List Json) (h : SameBinding env envLate) :
-    (batchResponsesCancelled cfg env envLate tbl early late).map (·.id) =
-        (batchResponses cfg env tbl (early ++ late)).map (·.id)
-    ∧ batchLogCancelled cfg env envLate tbl early late = batchLog cfg env tbl (early ++ late) := by
-  obtain ⟨h1, h2⟩ := batchResponses_ids_congr h cfg tbl late
-  obtain ⟨a1, a2⟩ := batchResponses_append cfg env tbl early late
-  simp only [batchResponsesCancelled, batchLogCancelled, List.map_append, a1, a2, h1, h2, and_self]
-
 /-- The window behind the `TeeReader` — and with it everything the pretty printer computes — depends
 only on the bytes that were read, not on how the reads were segmented. (That the dispatcher's answer
 does not depend on the segmentation is built into the model: it is a function of the parsed value.
@@ -294,7 +319,7 @@ theorem pretty_window_independent_of_segmentation (a b : List (List UInt8)) (h :
     Pretty.Win.writes {} a = Pretty.Win.writes {} b :=
   Pretty.writes_segmentation_independent a b h
 
-/-! ## 5c. The parse-error pretty printer never indexes out of range (`pretty_error.go`) -/
+/-! ## 7. The parse-error pretty printer never indexes out of range (`pretty_error.go`) -/
 
 /-- After any sequence of reads (the chunks the JSON decoder pulls through the `TeeReader`), the
 window buffer holds at most 512 bytes, not more than were consumed, and they are exactly the last
@@ -321,7 +346,7 @@ theorem pretty_truncate_in_range (len : Nat) (pivot : Int) (hp : 1 ≤ pivot) (s
     0 ≤ s ∧ s ≤ e ∧ e ≤ len ∧ 1 ≤ mc :=
   Pretty.truncateAround_in_range len pivot hp s e mc h
 
-/-! ## 6. The validator of rpc/v10 (arithmetic) -/
+/-! ## 8. The validator of rpc/v10 (arithmetic) -/
 
 /-- `felt_max_bits=b` accepts exactly the values below 2^b -/
 theorem feltMaxBits_spec (n b : Nat) : feltMaxBits n b = true ↔ n < 2 ^ b := by
